@@ -20,6 +20,10 @@ def run(ctx):
     ctx.rule("R7", "conservation (shared with C03.R1, C03.R2): every drained component is merged exactly once into the same component of the hot shard; a local batch adds "
                    "exactly its own count, sum and bucket deltas")
     ctx.run_rule("R7", lambda c: C06._as(c, "R7", lambda s_: hc.rule_C03(s_, f), keep=lambda k: ".R1|" in k or ".R2|" in k))
+    from . import C12
+    ctx.rule("R8", "what a local histogram flushes is one batch of its own observations (shared with C12.L5): flush clears all of count, sum and counts; a clone (start_timer clones) "
+                   "starts with all three cleared; otherwise a snapshot shows bucket counts that no set of observations explains")
+    ctx.run_rule("R8", lambda c: C06._as(c, "R8", lambda s_: C12.rule_local_histogram(s_, f, "L5")))
     if ctx.tier == "thorough":
         for cfgname in ("plain", "nightlyproc"):
             g = ctx.facts(cfgname)
